@@ -2,7 +2,7 @@
    Specification: Trace/Doc.v (doc_schema: the mapping of lib.rs and of every option's doc comment,
    by recursion on a description of the type). Models: Trace/Tracer.v (from_samples, to_field,
    overwrites). from_type of the crate is compared with doc_schema inside Coq on every case. *)
-From Verif Require Import Tracer Doc CoerceTable CoerceTable_proofs TracerTablesSpec FromType FromType_proofs.
+From Verif Require Import Tracer Doc CoerceTable CoerceTable_proofs TracerTablesSpec FromType FromType_proofs Constants ConstantsSpec.
 Local Open Scope nat_scope.
 
 (* Full-strength statements (kept visible); judged per case by RunC08.oracle / corr *)
@@ -129,9 +129,16 @@ Example C08_unit_payload_needs_exclusion :
   ok o 0 ty = false /\ from_type o [] 100 ty <> doc_schema o ty.
 Proof. vm_compute. split; [reflexivity|discriminate]. Qed.
 
+(* the depth limit, the number of transitions guarded by it, and the default tracing options (incl. the from_type budget
+   of 100) are the source's: regenerated from tracer.rs / tracing_options.rs on every run *)
+Theorem C08_constants_match_source :
+  max_depth = max_type_depth /\ depth_limited_transitions = 5 /\ defaults_ok = true.
+Proof. destruct constants_match as (A & B & _ & D). exact (conj A (conj B D)). Qed.
+
 Print Assumptions C08_leaf_tracers_agree.
 Print Assumptions C08_overwrite_replaces.
 Print Assumptions C08_coerce_arms_match_model.
 Print Assumptions C08_leaf_calls_match_model.
 Print Assumptions C08_from_type_is_documented.
 Print Assumptions C08_from_type_pass.
+Print Assumptions C08_constants_match_source.
